@@ -13,7 +13,8 @@
     rate functions                          [fnid]: FProd (product of all arguments: constants and
                                               mass action k*s1*..*sn, _relative_label_flux), FSum
                                               (_total_concentration, additive test functions),
-                                              FOneDiv / FNegOneDiv (1/y, -1/y) *)
+                                              FOneDiv / FNegOneDiv (1/y, -1/y),
+                                              FRev m (reversible mass action kf*S.. - kr*P..) *)
 From Coq Require Import List ZArith NArith Bool Arith Lia.
 From MxlBase Require Import ListX.
 Import ListNotations.
@@ -33,10 +34,13 @@ Defined.
 
 Definition lname_eqb (a b : lname) : bool := if lname_eq_dec a b then true else false.
 
-Inductive fnid := FProd | FSum | FOneDiv | FNegOneDiv.
+(** [FRev m]: reversible mass action kf * s1*..*sm - kr * p1*..*pq with the arguments in the order
+    (s1 .. sm, p1 .. pq, kf, kr) -- mxlpy.fns.mass_action_1s_1p / mass_action_2s_1p and the harness's rev_m_q *)
+Inductive fnid := FProd | FSum | FOneDiv | FNegOneDiv | FRev (m : nat).
 Definition fnid_eqb (a b : fnid) : bool :=
   match a, b with
   | FProd, FProd | FSum, FSum | FOneDiv, FOneDiv | FNegOneDiv, FNegOneDiv => true
+  | FRev x, FRev y => Nat.eqb x y
   | _, _ => false
   end.
 
@@ -163,6 +167,13 @@ Section Eval.
     | FSum => sumR vs
     | FOneDiv => match vs with [y] => rinv y | _ => rO end
     | FNegOneDiv => match vs with [y] => ropp (rinv y) | _ => rO end
+    | FRev m =>
+      let rest := skipn m vs in
+      let q := length rest - 2 in
+      match skipn q rest with
+      | [kf; kr] => radd (rmul kf (prodR (firstn m vs))) (ropp (rmul kr (prodR (firstn q rest))))
+      | _ => rO
+      end
     end.
 
   Definition coefval (env : lname -> R) (c : coef) : R :=
